@@ -13,7 +13,6 @@ type Rule struct {
 
 // A Property is the registry entry of one given property.
 type Property struct {
-	Title       string
 	Decided     string // clauses decided (goes to coverage.explanation and level text)
 	NotDecided  string // what is not decided (level_note)
 	Necessary   string // why the clauses are necessary conditions
